@@ -793,11 +793,11 @@ func TestC15_Exhaustive(t *testing.T) {
 				rec.Sample(map[string]interface{}{"list": site.id(), "exhaustive": true, "history": strings.Join(m.hist, " ; "), "final_order": m.modelKeys()})
 			}
 		}
+		// shorter sequences first, so that the first failure is a shortest one
+		want := 0
 		dfs = func() {
-			if len(seq) > 0 {
+			if len(seq) == want {
 				run()
-			}
-			if len(seq) == maxLen {
 				return
 			}
 			for li := range alpha {
@@ -809,7 +809,9 @@ func TestC15_Exhaustive(t *testing.T) {
 				seq = seq[:len(seq)-1]
 			}
 		}
-		dfs()
+		for want = 1; want <= maxLen; want++ {
+			dfs()
+		}
 	}
 	rec.Exhaustive()
 	rec.Add("exhaustive_sequences", total)
